@@ -152,17 +152,51 @@ macro("in_group", ["c", "px", "py"], "ufb('in_group', c.a, c.b, c.mod, c.g[0], c
 macro("is_dlog", ["c", "d", "px", "py"], "(d - dlog(c, px, py)) % c.n == 0")
 
 
+@contract(f"{E}::EcCurve.PointSequence")
+class PointSequence:
+  params = {"base": "point", "n": "int"}
+  self_fields = CURVE_FIELDS
+  returns = "list[point]"
+  assumed = True
+  assumed_why = "group arithmetic: bounded tier bounded/c11.py point_sequence_and_table (exhaustive on small curves)"
+  ensures = ["len(result) == max(n, 0)"]
+
+
+@contract(f"{E}::EcCurve.PointTable")
+class PointTable:
+  params = {"base": "point", "n": "int"}
+  self_fields = CURVE_FIELDS
+  returns = "ref:XTable"
+  assumed = True
+  assumed_why = "group arithmetic: bounded tier bounded/c11.py point_sequence_and_table"
+  ensures = []
+
+
 @contract(f"{E}::EcCurve.BatchDL")
 class BatchDL:
+  """The search loop (baby-step table lookups, candidate verification by Multiply) is decided by the bounded tier;
+  what IS discharged here for all n and all list lengths is the search space: the giant steps j*t, j < giant_steps,
+  together with the baby-step window |delta| < table_size cover every x in [0, n), the table cached on the curve is at
+  least as large as the window, and one result slot exists per point."""
   params = {"points": "list[point]", "n": "int"}
-  self_fields = CURVE_FIELDS
+  self_fields = dict(CURVE_FIELDS, _table="ref:XTable", _table_size="int")
   returns = "list[Optional[int]]"
-  assumed = True
-  assumed_why = ("baby-step/giant-step search: completeness and soundness decided by the bounded tier (bounded/c10.py, "
-                 "exhaustive on small prime-order curves); arithmetic under C11")
-  ensures = ["len(result) == len(points)",
-             "forall(k, 0, len(result), result[k] is None or points[k][0] is None or "
-             "implies(in_group(self, points[k][0], points[k][1]), is_dlog(self, result[k], points[k][0], points[k][1])))"]
+  requires = CURVE_REQ + ["n >= 1", "len(points) >= 1", "self._table_size >= 0"]
+  ensures = [("C10", "len(result) == len(points)")]
+  caller_ensures = ["len(result) == len(points)",
+                    "forall(k, 0, len(result), result[k] is None or points[k][0] is None or "
+                    "implies(in_group(self, points[k][0], points[k][1]), is_dlog(self, result[k], points[k][0], points[k][1])))"]
+  on_call = {f"{E}::EcCurve.PointSequence": [
+      "assert [C10] table_size >= 1 and t == 2 * table_size - 1",
+      # every x in [0, n) is within the baby-step window of some giant step
+      # every x in [0, n) lies within the baby-step window of a giant step; explicit witness j = (x + table_size - 1) // t
+      "check [C10] forall(x, 0, n, divmod_def(x + table_size - 1, t) and 0 <= idiv(x + table_size - 1, t) and "
+      "idiv(x + table_size - 1, t) < args[1] and 0 - table_size < x - idiv(x + table_size - 1, t) * t and "
+      "x - idiv(x + table_size - 1, t) * t < table_size)",
+      "assert [C10] self._table_size >= table_size"]}
+  loops = {0: dict(abstract=True, types={"res": "list[Optional[int]]"})}
+  var_types = {"res": "list[Optional[int]]"}
+  props = ["C10"]
 
 
 @contract(f"{E}::EcCurve.ExtendedBatchDL")
@@ -183,9 +217,19 @@ class ExtendedBatchDL:
 
 @contract(f"{E}::EcCurve.BatchDLOfDifferences")
 class BatchDLOfDifferences:
-  params = {"points": "list[tuple[int,int]]", "other_points": "opaque", "max_diff": "int"}
-  self_fields = CURVE_FIELDS
+  """Pair search decided by the bounded tier; discharged here: one slot per point, nothing is searched (and no table
+  built) when fewer than two points are involved, and otherwise the cached table covers max_diff."""
+  params = {"points": "list[tuple[int,int]]", "other_points": "Optional[list[tuple[int,int]]]", "max_diff": "int"}
+  self_fields = dict(CURVE_FIELDS, _table="ref:XTable", _table_size="int")
   returns = "list[Optional[str]]"
-  assumed = True
-  assumed_why = "search logic under C10/C02 (bounded tier bounded/c10.py, bounded/c02.py)"
-  ensures = ["len(result) == len(points)"]
+  requires = CURVE_REQ + ["self._table_size >= 0"]
+  ensures = [("C10", "len(result) == len(points)")]
+  caller_ensures = ["len(result) == len(points)"]
+  return_hints = [("C10", "implies(defined('negated'), self._table_size >= max_diff and "
+                          "len(points) >= 1 and len(points) + len(other_points) >= 2)"),
+                  ("C10", "implies(not defined('negated'), len(points) == 0 or len(points) + len(other_points) < 2)")]
+  loops = {0: dict(abstract=True)}
+  var_types = {"res": "list[Optional[str]]"}
+  props = ["C10"]
+
+
